@@ -36,6 +36,10 @@ type c10Op struct {
 	Assign  map[string][]c10T `json:"assign,omitempty"`
 	Hash    uint64            `json:"hash,omitempty"`
 	Samples int               `json:"samples,omitempty"` // -1 = failing scrape
+	// During (scrape): a target update that the sidecar's API handles while this scrape is in flight (the scripted
+	// target posts it before it answers); it keeps the scraped target, possibly with another state
+	During    map[string][]c10T `json:"during,omitempty"`
+	HasDuring bool              `json:"hasDuring,omitempty"`
 }
 
 type c10T struct {
@@ -68,7 +72,7 @@ type mEntry struct {
 func c10Addr(h uint64) string { return fmt.Sprintf("exporter-%d:80", (h+1)/2) }
 
 func recC10() *vkit.Recorder {
-	r := vkit.Rec("C10", "exploration", "rapid operation sequences over the real sidecar Service HTTP API and Proxy: update (assignments over 6 hashes x 2 jobs: adds, removals, state flips, repeats, empty sets, a hash moving to the other job), scrape(hash, outcome), restart; after every operation the status and runtime-info answers are compared with a reference model of the bookkeeping; non-trivial = sequence with a state flip after >=1 scrape, an empty->empty update, a restart while idle, or a target kept across >=2 updates; distinct = digest of the operation sequence")
+	r := vkit.Rec("C10", "exploration", "rapid operation sequences over the real sidecar Service HTTP API and Proxy: update (assignments over 6 hashes x 2 jobs: adds, removals, state flips, repeats, empty sets, a hash moving to the other job), scrape(hash, outcome) - one in five of them with a target update handled while the scrape is in flight (the update takes effect first, the scrape ends after it) -, restart; after every operation the status and runtime-info answers are compared with a reference model of the bookkeeping; non-trivial = sequence with a state flip after >=1 scrape, an empty->empty update, a restart while idle, or a target kept across >=2 updates; distinct = digest of the operation sequence")
 	r.Assume("one occurrence per hash per update request (as the coordinator builds them); what the statistics of a target look like right after a restart is not fixed by the statement: counter/health/series are re-synchronised from the first observation after a restart, key set / states / idle-since are judged throughout; the idle instant is bracketed by two harness clock reads when first observed and must be identical afterwards")
 	return r
 }
@@ -77,7 +81,13 @@ func runC10(rec *vkit.Recorder, c *c10Case) []vkit.Violation {
 	dir, _ := ioutil.TempDir("", "c10-")
 	defer os.RemoveAll(dir)
 	payload := 0
+	var during func()
 	rt := rtFunc(func(r *http.Request) (*http.Response, error) {
+		if during != nil {
+			d := during
+			during = nil
+			d()
+		}
 		if payload < 0 {
 			return nil, fmt.Errorf("connection refused (scripted)")
 		}
@@ -175,14 +185,9 @@ func runC10(rec *vkit.Recorder, c *c10Case) []vkit.Violation {
 	}
 	observe(-1, "start")
 
-	for i, op := range c.Ops {
-		if len(vs) > 0 {
-			break
-		}
-		switch op.Kind {
-		case "update":
+	doUpdate := func(i int, assign map[string][]c10T) bool {
 			req := &shard.UpdateTargetsRequest{Targets: map[string][]*target.Target{}}
-			for job, ts := range op.Assign {
+			for job, ts := range assign {
 				req.Targets[job] = []*target.Target{}
 				for _, t := range ts {
 					ls := lbls("__address__", c10Addr(t.Hash), "__scheme__", "http", "__metrics_path__", "/metrics", "job", job)
@@ -197,10 +202,10 @@ func runC10(rec *vkit.Recorder, c *c10Case) []vkit.Violation {
 			after := time.Now()
 			if code != 200 {
 				add("C10/update-rejected", "step %d: update answered %d %s", i, code, body)
-				break
+				return false
 			}
 			nm := map[uint64]*mEntry{}
-			for job, ts := range op.Assign {
+			for job, ts := range assign {
 				for _, t := range ts {
 					if old := model[t.Hash]; old != nil {
 						if old.state == "" && t.State == "in_transfer" {
@@ -233,6 +238,15 @@ func runC10(rec *vkit.Recorder, c *c10Case) []vkit.Violation {
 				idle, idlePinned = false, nil
 			}
 			model = nm
+			return true
+	}
+	for i, op := range c.Ops {
+		if len(vs) > 0 {
+			break
+		}
+		switch op.Kind {
+		case "update":
+			doUpdate(i, op.Assign)
 		case "scrape":
 			m := model[op.Hash]
 			job := "ja"
@@ -240,9 +254,20 @@ func runC10(rec *vkit.Recorder, c *c10Case) []vkit.Violation {
 				job = m.job
 			}
 			payload = op.Samples
+			if op.HasDuring {
+				step, assign := i, op.During
+				during = func() { doUpdate(step, assign) }
+				flags["update-while-scrape-in-flight"] = true
+			}
 			req := httptest.NewRequest("GET", proxyURL(job, op.Hash, c10Addr(op.Hash), "/metrics", nil), nil)
 			recw := httptest.NewRecorder()
 			n.proxy.ServeHTTP(recw, req)
+			during = nil
+			heldBefore := m != nil
+			m = model[op.Hash] // the update handled in flight took effect first, the scrape ended after it
+			if !heldBefore {
+				m = nil
+			}
 			if m != nil {
 				if !m.synced {
 					// first observation after a restart has not happened yet: observe below re-syncs
@@ -308,6 +333,7 @@ func genC10(t *rapid.T) *c10Case {
 	c := &c10Case{}
 	n := rapid.IntRange(1, 30).Draw(t, "nOps")
 	cur := map[uint64]c10T{}
+	curJob := map[uint64]string{}
 	for i := 0; i < n; i++ {
 		l := fmt.Sprintf("op%d", i)
 		switch pick(t, l+"-kind", 45, 45, 10) {
@@ -357,9 +383,11 @@ func genC10(t *rapid.T) *c10Case {
 				}
 			}
 			cur = map[uint64]c10T{}
-			for _, ts := range op.Assign {
+			curJob = map[uint64]string{}
+			for job, ts := range op.Assign {
 				for _, ct := range ts {
 					cur[ct.Hash] = ct
+					curJob[ct.Hash] = job
 				}
 			}
 			c.Ops = append(c.Ops, op)
@@ -374,7 +402,40 @@ func genC10(t *rapid.T) *c10Case {
 				sort.Slice(hs, func(i, j int) bool { return hs[i] < hs[j] })
 				h = hs[rapid.IntRange(0, len(hs)-1).Draw(t, l+"-which")]
 			}
-			c.Ops = append(c.Ops, c10Op{Kind: "scrape", Hash: h, Samples: s})
+			op := c10Op{Kind: "scrape", Hash: h, Samples: s}
+			if _, held := cur[h]; held && rapid.IntRange(0, 4).Draw(t, l+"-during") == 0 {
+				// an update arrives while this scrape is in flight: the current assignment again, some states flipped
+				// (the scraped target stays), other targets possibly dropped
+				op.HasDuring, op.During = true, map[string][]c10T{}
+				var hs []uint64
+				for x := range cur {
+					hs = append(hs, x)
+				}
+				sort.Slice(hs, func(i, j int) bool { return hs[i] < hs[j] })
+				next := map[uint64]c10T{}
+				for _, x := range hs {
+					ct := cur[x]
+					if x != h && rapid.IntRange(0, 4).Draw(t, fmt.Sprintf("%s-d%d-drop", l, x)) == 0 {
+						continue
+					}
+					flipP := 2
+					if x == h {
+						flipP = 6
+					}
+					if rapid.IntRange(0, 9).Draw(t, fmt.Sprintf("%s-d%d-flip", l, x)) < flipP {
+						if ct.State == "" {
+							ct.State = "in_transfer"
+						} else {
+							ct.State = ""
+						}
+					}
+					job := curJob[x]
+					op.During[job] = append(op.During[job], ct)
+					next[x] = ct
+				}
+				cur = next
+			}
+			c.Ops = append(c.Ops, op)
 		default:
 			c.Ops = append(c.Ops, c10Op{Kind: "restart"})
 		}
